@@ -942,4 +942,162 @@ theorem fwd_requiredSelectionSet (ss : Selections) (hok : SelsOK ss) (hwf : WFSe
     Fwd (parseRequiredSelectionSet n) a (fun y a' => y.erasePos = ss.erasePos ∧ a'.σ = σ') :=
   (fwd_selectionSet (fwd_selections ss hok hwf) hne n n a σ' hs).1
 
+/-! ### definitions -/
+
+def OpOK (o : OperationDef) : Prop := (∀ v ∈ o.vars, VarDefOK v) ∧ DirsOK o.dirs ∧ SelsOK o.sel
+def FragOK (f : FragmentDef) : Prop := (∀ v ∈ f.vars, VarDefOK v) ∧ DirsOK f.dirs ∧ SelsOK f.sel
+
+/-- the long form of an operation: the keyword is always written (what a formatter that never uses
+    the query shorthand emits); equal to `printOperation o` unless `o` is bare -/
+def opLong (o : OperationDef) : List Tok :=
+  tName o.op :: ((if o.name = [] then [] else [tName o.name]) ++ (printVarDefs o.vars ++ (printDirectives o.dirs ++
+    printSelectionSet o.sel)))
+
+theorem printOperation_eq (o : OperationDef) :
+    printOperation o = if OperationDef.isBare o then printSelectionSet o.sel else opLong o := by
+  unfold printOperation opLong
+  split <;> simp
+
+theorem fwd_parseOperationType {a : AS} {u : Token} {σ1 : Stream} {op : Bytes} (hpk : a.pk = true)
+    (hσ : a.σ = .cons u σ1) (hu : Tok.ofToken u = tName op)
+    (hop : op = str "query" ∨ op = str "mutation" ∨ op = str "subscription") :
+    Fwd parseOperationType a (fun x a' => x = op ∧ a'.σ = σ1) := by
+  have hk : u.kind = .name := ofToken_kind hu
+  have hv : u.value = op := ofToken_value hu
+  unfold parseOperationType
+  refine Fwd.bind (fwd_next hpk hσ) ?_
+  rintro tok a1 ⟨rfl, rfl⟩
+  rcases hop with h | h | h
+  · refine Fwd.ite_pos ⟨hk, by rw [hv, h]; rfl⟩ ((Fwd.pure _ _).mono ?_)
+    rintro x a' ⟨rfl, rfl⟩; exact ⟨by rw [h]; rfl, rfl⟩
+  · refine Fwd.ite_neg (fun hc => by rw [hv, h] at hc; exact absurd hc.2 (by decide)) (Fwd.ite_pos ⟨hk, by rw [hv, h]; rfl⟩
+      ((Fwd.pure _ _).mono ?_))
+    rintro x a' ⟨rfl, rfl⟩; exact ⟨by rw [h]; rfl, rfl⟩
+  · refine Fwd.ite_neg (fun hc => by rw [hv, h] at hc; exact absurd hc.2 (by decide)) (Fwd.ite_neg
+      (fun hc => by rw [hv, h] at hc; exact absurd hc.2 (by decide)) (Fwd.ite_pos ⟨hk, by rw [hv, h]; rfl⟩
+      ((Fwd.pure _ _).mono ?_)))
+    rintro x a' ⟨rfl, rfl⟩; exact ⟨by rw [h]; rfl, rfl⟩
+
+theorem fwd_opTail (o : OperationDef) (hok : OpOK o) (hwf : WFOperation o) (n : Nat) (pos : Pos) (a : AS) (σ' : Stream)
+    (hs : Starts a.σ (printVarDefs o.vars ++ (printDirectives o.dirs ++ printSelectionSet o.sel)) σ') :
+    Fwd (opTail n pos o.op o.name) a (fun y a' => y.erasePos = o.erasePos ∧ a'.σ = σ') := by
+  obtain ⟨hop, hvars, hne, hsel⟩ := hwf
+  rw [Starts.append_iff] at hs
+  obtain ⟨σ1, h1, hs⟩ := hs
+  rw [Starts.append_iff] at hs
+  obtain ⟨σ2, h2, h3⟩ := hs
+  have k3 : σ2.head.kind = .braceL := h3.head_kind (t := tP .braceL)
+  have k2 := h2.firstKind
+  rw [firstKind_directives, k3] at k2
+  unfold opTail
+  refine Fwd.bind (fwd_varDefs o.vars hok.1 hvars n a σ1 h1 (fun _ => by rw [k2]; split <;> decide)) ?_
+  rintro vs' a1 ⟨hvs, hσ1⟩
+  refine Fwd.bind (fwd_directives false o.dirs hok.2.1 (by simp) n a1 σ2 (by rw [hσ1]; exact h2)
+    (by rw [k3]; decide) (by rw [k3]; decide)) ?_
+  rintro ds' a2 ⟨hds, hσ2⟩
+  refine Fwd.bind (fwd_requiredSelectionSet o.sel hok.2.2 hsel hne n a2 σ' (by rw [hσ2]; exact h3)) ?_
+  rintro ss' a3 ⟨hss, hσ⟩
+  refine (Fwd.pure _ _).mono ?_
+  rintro y a4 ⟨rfl, rfl⟩
+  exact ⟨by simp [OperationDef.erasePos, hvs, hds, hss], hσ⟩
+
+/-- an operation written with its keyword -/
+theorem fwd_opLong (o : OperationDef) (hok : OpOK o) (hwf : WFOperation o) (n : Nat) (a : AS) (σ' : Stream)
+    (hs : Starts a.σ (opLong o) σ') :
+    Fwd (parseOperationDefinition n) a (fun y a' => y.erasePos = o.erasePos ∧ a'.σ = σ') := by
+  unfold opLong at hs
+  obtain ⟨σ1, h1, hs2⟩ := hs.cons_single
+  obtain ⟨u, hσu, hu⟩ := h1.single
+  rw [parseOperationDefinition_eq]
+  refine Fwd.bind (fwd_peek a) ?_
+  rintro t a1 ⟨rfl, rfl⟩
+  have hk : a.σ.head.kind = .name := by rw [hσu]; exact ofToken_kind hu
+  refine Fwd.ite_neg (by rw [hk]; decide) (Fwd.bind (fwd_peekPos _) ?_)
+  rintro pos a2 rfl
+  refine Fwd.bind (fwd_parseOperationType (a := { pk := true, σ := a.σ, cnt := a.cnt }) rfl hσu hu hwf.1) ?_
+  rintro op a3 ⟨rfl, hσ3⟩
+  refine Fwd.bind (fwd_peek a3) ?_
+  rintro t2 a4 ⟨rfl, rfl⟩
+  by_cases hn : o.name = []
+  · simp only [hn, if_true, List.nil_append] at hs2
+    have hk2 : a3.σ.head.kind ≠ .name := by
+      rw [hσ3, hs2.firstKind]
+      simp only [firstKind_append, firstKind_varDefs, firstKind_directives]
+      repeat' split
+      all_goals first | decide | simp [printSelectionSet, tP]
+    refine Fwd.ite_neg hk2 ?_
+    have := fwd_opTail o hok hwf n pos { pk := true, σ := a3.σ, cnt := a3.cnt } σ' (by simpa [hσ3] using hs2)
+    rw [hn] at this
+    exact this
+  · simp only [if_neg hn, List.cons_append, List.nil_append] at hs2
+    obtain ⟨σ2, h2, h3⟩ := hs2.cons_single
+    obtain ⟨u2, hσu2, hu2⟩ := h2.single
+    have hk2 : a3.σ.head.kind = .name := by rw [hσ3, hσu2]; exact ofToken_kind hu2
+    refine Fwd.ite_pos hk2 (Fwd.bind (fwd_next (a := { pk := true, σ := a3.σ, cnt := a3.cnt }) (t := u2) (σ' := σ2) rfl
+      (by simp [hσ3, hσu2])) ?_)
+    rintro tk a5 ⟨rfl, rfl⟩
+    have := fwd_opTail o hok hwf n pos { pk := false, σ := σ2, cnt := a3.cnt } σ' (by simpa using h3)
+    rw [show o.name = tk.value from (ofToken_value hu2).symm] at this
+    exact this
+
+/-- an operation written in the query shorthand -/
+theorem fwd_opShort (o : OperationDef) (hok : OpOK o) (hwf : WFOperation o) (hbare : OperationDef.isBare o = true)
+    (n : Nat) (a : AS) (σ' : Stream) (hs : Starts a.σ (printSelectionSet o.sel) σ') :
+    Fwd (parseOperationDefinition n) a (fun y a' => y.erasePos = o.erasePos ∧ a'.σ = σ') := by
+  simp only [OperationDef.isBare, Bool.and_eq_true, beq_iff_eq, List.isEmpty_iff] at hbare
+  obtain ⟨⟨⟨b1, b2⟩, b3⟩, b4⟩ := hbare
+  rw [parseOperationDefinition_eq]
+  refine Fwd.bind (fwd_peek a) ?_
+  rintro t a1 ⟨rfl, rfl⟩
+  have hk : a.σ.head.kind = .braceL := hs.head_kind (t := tP .braceL)
+  refine Fwd.ite_pos hk (Fwd.bind (fwd_peekPos _) ?_)
+  rintro pos a2 rfl
+  refine Fwd.bind (fwd_requiredSelectionSet o.sel hok.2.2 hwf.2.2.2 hwf.2.2.1 n _ σ' (by simpa using hs)) ?_
+  rintro ss' a3 ⟨hss, hσ⟩
+  refine (Fwd.pure _ _).mono ?_
+  rintro y a4 ⟨rfl, rfl⟩
+  exact ⟨by simp [OperationDef.erasePos, hss, b1, b2, b3, b4, kwQuery], hσ⟩
+
+theorem fwd_fragment (f : FragmentDef) (hok : FragOK f) (hwf : WFFragment f) (n : Nat) (a : AS) (σ' : Stream)
+    (hs : Starts a.σ (printFragment f) σ') :
+    Fwd (parseFragmentDefinition n) a (fun y a' => y.erasePos = f.erasePos ∧ a'.σ = σ') := by
+  obtain ⟨hname, hvars, hne, hsel⟩ := hwf
+  have hs : Starts a.σ ([tKw "fragment"] ++ ([tName f.name] ++ (printVarDefs f.vars ++ ([tKw "on"] ++ ([tName f.typeCond] ++
+      (printDirectives f.dirs ++ printSelectionSet f.sel)))))) σ' := by simpa [printFragment] using hs
+  rw [Starts.append_iff] at hs
+  obtain ⟨σ1, h1, hs⟩ := hs
+  rw [Starts.append_iff] at hs
+  obtain ⟨σ2, h2, hs⟩ := hs
+  rw [Starts.append_iff] at hs
+  obtain ⟨σ3, h3, hs⟩ := hs
+  rw [Starts.append_iff] at hs
+  obtain ⟨σ4, h4, hs⟩ := hs
+  rw [Starts.append_iff] at hs
+  obtain ⟨σ5, h5, hs⟩ := hs
+  rw [Starts.append_iff] at hs
+  obtain ⟨σ6, h6, h7⟩ := hs
+  have k7 : σ6.head.kind = .braceL := h7.head_kind (t := tP .braceL)
+  have k4 : σ3.head.kind = .name := h4.head_kind
+  unfold parseFragmentDefinition
+  refine Fwd.bind (fwd_peekPos _) ?_
+  rintro pos a1 rfl
+  refine Fwd.bind (fwd_keyword "fragment" (by simpa using h1)) ?_
+  rintro _ a2 hσ2
+  refine Fwd.bind (fwd_parseFragmentName f.name (by rw [hσ2]; exact h2) hname) ?_
+  rintro x a3 ⟨rfl, hσ3⟩
+  refine Fwd.bind (fwd_varDefs f.vars hok.1 hvars n a3 σ3 (by rw [hσ3]; exact h3) (fun _ => by rw [k4]; decide)) ?_
+  rintro vs' a4 ⟨hvs, hσ4⟩
+  refine Fwd.bind (fwd_keyword "on" (by rw [hσ4]; exact h4)) ?_
+  rintro _ a5 hσ5
+  refine Fwd.bind (fwd_parseName f.typeCond (by rw [hσ5]; exact h5)) ?_
+  rintro tc a6 ⟨rfl, hσ6⟩
+  refine Fwd.bind (fwd_directives false f.dirs hok.2.1 (by simp) n a6 σ6 (by rw [hσ6]; exact h6)
+    (by rw [k7]; decide) (by rw [k7]; decide)) ?_
+  rintro ds' a7 ⟨hds, hσ7⟩
+  refine Fwd.bind (fwd_requiredSelectionSet f.sel hok.2.2 hsel hne n a7 σ' (by rw [hσ7]; exact h7)) ?_
+  rintro ss' a8 ⟨hss, hσ⟩
+  refine (Fwd.pure _ _).mono ?_
+  rintro y a9 ⟨rfl, rfl⟩
+  exact ⟨by simp [FragmentDef.erasePos, hvs, hds, hss], hσ⟩
+
 end Gql.Parser
